@@ -31,7 +31,10 @@ ASSUMPTIONS = ['what a child process sees is observed with probe programs (sh+en
                'the timeout in force is observed as the value handed to the command executor, not by letting processes '
                'time out (that is C19)',
                'values are constant strings; values taken from program output or files are outside the model',
-               'the variable PWD, which dash exports by itself, is removed from what shell probes report']
+               'the variable PWD, which dash exports by itself, is removed from what shell probes report',
+               'the program computing the value of `env NAME = -stdout-from PROGRAM` is observed as a process too: the timeout handed '
+               'to it and its current directory are judged; its ENVIRONMENT (documented: that of the set being changed) is not judged '
+               'by the property predicate, only compared with the model']
 TRUSTED_EXTRA = ['harness/c11.py: history generator, rendering to exactly syntax, probe programs, canonicaliser']
 
 PROP = 'C11'
@@ -112,7 +115,10 @@ def gen_ops(rng, phase, n, sim):
         k = rng.below(100)
         if k < 45:
             tgt = rng.weighted([('both', 4), ('act', 3), ('nonact', 3)])
-            if rng.chance(0.8):
+            if rng.chance(0.22):
+                # the value is the output of a program: that program is one more observed process (timeout, cwd)
+                ops.append(['envprog', tgt, rng.choice(NAMES), gen_value(rng)])
+            elif rng.chance(0.8):
                 ops.append(['env', tgt, 'set', rng.choice(NAMES), gen_value(rng)])
             else:
                 ops.append(['env', tgt, 'unset', rng.choice(NAMES)])
@@ -193,6 +199,10 @@ def render_op(op, out, tag, perl_script):
         if what == 'set':
             return 'env %s%s = %s' % (TARGET_OPT[tgt], nm, quote(op[4]))
         return 'env %sunset %s' % (TARGET_OPT[tgt], nm)
+    if k == 'envprog':
+        # one file pair per RUN of the program ($$ = pid of the shell): the program runs once per set being changed
+        return ("env %s%s = -stdout-from $ /usr/bin/env -0 > %s/%s-$$.env; /bin/pwd > %s/%s-$$.cwd; printf %%s %s"
+                % (TARGET_OPT[op[1]], op[2], out, tag, out, tag, quote(op[3])))
     if k == 'cd':
         return 'cd %s%s' % (BASE_OPT[op[1]], '/'.join(op[2]))
     if k == 'timeout':
@@ -307,14 +317,21 @@ class Runner:
             os.environ.update(saved)
         points = []
         child = {}
+        value_runs = {}
         for timeout, environ, new in self.log:
-            tags = sorted({fn.split('.')[0] for fn in new})
-            for tag in tags:
-                if tag + '.childcwd' in new:
-                    child[tag] = self._cwd(tag + '.childcwd')
-                if tag + '.env' in new:
-                    env = self._env(tag)
-                    points.append([tag, env, self._cwd(tag + '.cwd'), timeout])
+            stems = sorted({fn.split('.')[0] for fn in new})
+            for stem in stems:
+                if stem + '.childcwd' in new:
+                    child[stem] = self._cwd(stem + '.childcwd')
+                if stem + '.env' in new:
+                    env = self._env(stem)
+                    tag, dash, _pid = stem.partition('-')
+                    role = None  # an ordinary process
+                    if dash:
+                        # the k-th run of the program computing the value of the env instruction at [tag]
+                        role = value_runs.get(tag, 0)
+                        value_runs[tag] = role + 1
+                    points.append([tag, env, self._cwd(stem + '.cwd'), timeout, role])
         return {'exit': r.exit_code, 'stdout': r.out.strip(), 'stderr': r.err[-600:] if r.exit_code != 0 else '',
                 'exception': repr(r.exception) if r.exception else None,
                 'environ_of_exactly_unchanged': environ_after == case['default'],
@@ -395,6 +412,8 @@ def c_op(op):
         if op[2] == 'set':
             return '(OEnv %s (MSet %s %s))' % (TARGET_COQ[op[1]], ctext(op[3]), ctext(op[4]))
         return '(OEnv %s (MUnset %s))' % (TARGET_COQ[op[1]], ctext(op[3]))
+    if k == 'envprog':
+        return '(OEnvProg %s %s %s)' % (TARGET_COQ[op[1]], ctext(op[2]), ctext(op[3]))
     if k == 'cd':
         return '(OCd %s %s)' % (BASE_COQ[op[1]], c_path(op[2]))
     if k == 'timeout':
@@ -419,8 +438,9 @@ def c_point(tag):
 def c_case(case, observed, initial_timeout, dirs='DIRS'):
     cfg = '(Config %s %s %s)' % (c_env(case['default']), c_timeout(initial_timeout), dirs)
     hist = '(History %s %s %s %s)' % tuple(c_ops(case['phases'][ph]) for ph in PHASES)
-    obs = [('(%s, Obs %s %s %s)' % (c_point(tag), c_env(env), c_path(cwd), c_timeout(t)))
-           for tag, env, cwd, t in observed['points']]
+    obs = [('(%s, Obs %s %s %s %s)' % (c_point(tag), c_env(env), c_path(cwd), c_timeout(t),
+                                       'RProcess' if role is None else '(RValue %s)' % cnat(role)))
+           for tag, env, cwd, t, role in observed['points']]
     failed = observed['exit'] != 0 or observed['exception'] is not None
     return '(Case %s %s %s %s)' % (cfg, hist, clist(obs) if obs else '(@nil (point * obs))', common.cbool(failed))
 
@@ -438,12 +458,17 @@ def features(case):
     phases_changing = 0
     for ph in PHASES:
         ops = case['phases'][ph]
-        if any(o[0] in ('env', 'cd', 'timeout') for o in ops):
+        if any(o[0] in ('env', 'envprog', 'cd', 'timeout') for o in ops):
             phases_changing += 1
         for o in ops:
             if o[0] == 'env':
                 f.add('env-' + o[1])
                 if o[2] == 'set' and re.search(r'\$\{[a-zA-Z0-9_]+\}', o[4]):
+                    f.add('ref')
+            elif o[0] == 'envprog':
+                f.add('env-' + o[1])
+                f.add('env value from program')
+                if re.search(r'\$\{[a-zA-Z0-9_]+\}', o[3]):
                     f.add('ref')
             else:
                 f.add(o[0])
@@ -467,6 +492,13 @@ CORPUS = [
                           ['timeout', None], ['probe', 1]],
         'assert': [['cd', 'cwd', ['d2']], ['probe', 0]],
         'cleanup': [['probe', 1]]}},
+    # values computed by programs: timeout / cwd handed to them, in every phase, each -of variant
+    {'default': {'A': 'i'}, 'act_probe': 0, 'phases': {
+        'setup': [['timeout', 41], ['env', 'act', 'set', 'A', 'a'], ['envprog', 'both', 'B', '<${A}>'], ['cd', 'cwd', ['d1']],
+                  ['envprog', 'act', 'C', 'c'], ['envprog', 'nonact', 'C', 'n'], ['probe', 0]],
+        'before_assert': [['timeout', None], ['envprog', 'both', 'D', '${C}${B}'], ['probe', 1]],
+        'assert': [['timeout', 52], ['envprog', 'act', 'E', 'e'], ['envprog', 'nonact', 'E', 'e'], ['probe', 0]],
+        'cleanup': [['cd', 'tmp', ['t1']], ['envprog', 'both', 'F', 'f'], ['probe', 2]]}},
     # both sets modified independently before any probe; self reference
     {'default': {'A': 'i'}, 'act_probe': 1, 'phases': {
         'setup': [['env', 'act', 'set', 'A', '${A}+act'], ['env', 'nonact', 'set', 'A', '${A}+non'],
@@ -484,6 +516,8 @@ def py_expected(case, initial_timeout):
         return re.sub(r'\$\{([a-zA-Z0-9_]+)\}', lambda mo: m.get(mo.group(1), ''), v)
 
     def step(op):
+        if op[0] == 'envprog':
+            op = ['env', op[1], 'set', op[2], op[3]]
         if op[0] == 'env':
             for which in (['act', 'nonact'] if op[1] == 'both' else [op[1]]):
                 if op[2] == 'set':
@@ -501,7 +535,7 @@ def py_expected(case, initial_timeout):
 
     def phase(ph):
         for i, op in enumerate(case['phases'][ph]):
-            if op[0] == 'probe':
+            if op[0] in ('probe', 'envprog'):
                 exp['%s%d' % (PHASE_TAG[ph], i)] = [dict(st['nonact']), list(st['cwd']), st['timeout']]
             if not step(op):
                 return False
@@ -518,11 +552,14 @@ def py_expected(case, initial_timeout):
 def explain(case, observed, initial_timeout):
     exp = py_expected(case, initial_timeout)
     out = []
-    for tag, env, cwd, t in observed['points']:
+    for tag, env, cwd, t, role in observed['points']:
         if tag not in exp:
             out.append('%s: observed, but not expected to be reached' % tag)
             continue
         e_env, e_cwd, e_t = exp[tag]
+        if role is not None:
+            tag = '%s (run %d of the program computing the value)' % (tag, role)
+            e_env = env  # its environment is not judged
         for k in sorted(set(env) | set(e_env)):
             if env.get(k) != e_env.get(k):
                 out.append('%s: variable %s: process saw %r, instructions before it give %r' % (tag, k, env.get(k), e_env.get(k)))
@@ -531,8 +568,9 @@ def explain(case, observed, initial_timeout):
         if t != e_t:
             out.append('%s: timeout handed to the process executor %r, instructions before it give %r' % (tag, t, e_t))
     seen = {p[0] for p in observed['points']}
+    value_tags = {'%s%d' % (PHASE_TAG[ph], i) for ph in PHASES for i, o in enumerate(case['phases'][ph]) if o[0] == 'envprog'}
     for tag in exp:
-        if tag not in seen:
+        if tag not in seen and tag not in value_tags:  # a value program legitimately runs 0..2 times
             out.append('%s: expected to be reached, but no process reported from there' % tag)
     return out[:12]
 
@@ -656,7 +694,9 @@ def run(ctx, res):
                 'distributed over setup, before-assert, assert, cleanup in any way, a probe process after (nearly) every '
                 'change and as the act program (3 kinds of probe instruction: shell, program, -stdout-from; 4 kinds of act program: shell command, '
                 'program, source interpreter actor, file interpreter actor); values with ${A}, unset '
-                'names, $A, ${, nested-looking and adjacent references; initial environment of 0..4 variables; in 12%% of '
+                'names, $A, ${, nested-looking and adjacent references; 22%% of the env sets take their value from a program '
+                '(-stdout-from, every phase, each -of variant) which is observed as one more process per run (timeout, cwd judged); '
+                'initial environment of 0..4 variables; in 12%% of '
                 'the histories a cd to a missing directory (the phases before cleanup halt there). '
                 'non-trivial := settings changed in >= 2 phases, >= 1 well-formed ${} reference, >= 2 different target sets; '
                 'distinct := distinct history.  Second stream: the real _expand_vars called directly on dense random strings over '
